@@ -9,6 +9,7 @@ META = meta('C05', level='other', extra_tb=None)
 def check(A):
     for fl in S.FLAVOURS:
         S.close_once(A, fl, 'C05')
+        S.receive_table(A, fl, 'C05')
         S.post_request(A, fl, 'C05')
         S.ws_read_loop(A, fl, 'C05', closed_rule='C05.none-after')
         S.get_request_rules(A, fl, 'C05')
